@@ -203,10 +203,16 @@ open XsVerif.Threads.XW in
     the model: every event must be the enabled statement of that thread and every read must return the
     model's value. -/
 def replayXW (sch : Sch) (v : Variant) (s₀ : Sh) (evs : List (Nat × String × Nat × Nat × Nat)) :
-    Except String XW.Cfg := do
+    Except String (XW.Cfg × List Nat) := do
   let mut c := XW.init s₀ (fun _ => [])
   let mut n := 0
+  let mut errs : List Nat := []      -- threads whose call ended with RuntimeError and that started another call
   for (t, ev, a, b, val) in evs do
+    -- RuntimeError ends the CALL; the next call of the same real thread is a new run of a program (in the
+    -- model: another thread number — here the same number with a fresh pc)
+    if (c.th t).pc == .err && (ev == "xin" || ev == "sbool") then
+      errs := t :: errs
+      c := { c with th := upd c.th t { c.th t with pc := .idle } }
     let pc := (c.th t).pc
     let fail (why : String) : Except String XW.Cfg :=
       throw s!"event {n} (thread {t} {ev} {a} {b} {val}) at pc {xpcStr pc}: {why}"
@@ -270,7 +276,7 @@ def replayXW (sch : Sch) (v : Variant) (s₀ : Sh) (evs : List (Nat × String ×
       if (c.sh.contains (.elem a b)) != (val != 0) then c ← fail s!"model: e in elements = {c.sh.contains (.elem a b)}"
     | _, _ => c ← fail "event not enabled in the model"
     n := n + 1
-  return c
+  return (c, errs)
 
 def parseEv5 (j : Json) : Except String (Nat × String × Nat × Nat × Nat) := do
   let a ← j.getArr?
@@ -375,7 +381,10 @@ def handle (j : Json) : Except String Json := do
     let evs ← (← getArr j "events").toList.mapM parseEv5
     match replayXW sch v s₀ evs with
     | .error e => return Json.mkObj [("ok", false), ("why", e)]
-    | .ok c => return xwOut n c
+    | .ok (c, errs) =>
+      return (xwOut n c).setObjVal! "errs" (Json.arr ((List.range n).map fun t =>
+        let k : Nat := errs.count t + (if (c.th t).pc == .err then 1 else 0)
+        Json.num k).toArray)
   | "xwexec" =>
     let n ← getNat j "threads"
     let sch ← parseSch j
